@@ -451,9 +451,14 @@ def _run_struct(case):
                 witness.append("prior named %r appears as %r" % (nm, got))
     rng = rng_for(*case["seed"])
     index_of = lambda i: idx[i]
-    for rep in range(2):
+    for rep in range(3):
         perm = rng.permutation(len(names))
         values = [1.1 + 0.37 * float(perm[j]) + 0.01 * rep for j in range(len(names))]
+        if rep == 2:
+            # exact zeros are values like any other (integer 0 and float 0.0), for scatterer, theory and optics parameters alike
+            for j in range(len(names)):
+                if rng.random() < 0.4:
+                    values[j] = [0.0, 0, -0.0][int(rng.integers(0, 3))]
         built = _check_placement(model, st, pool, index_of, values, "", resid, flags, witness)
         if case.get("theory"):
             th = model.theory_from_parameters(list(values))
@@ -631,10 +636,14 @@ def _run_roundtrip(case):
     b = s.from_parameters(pars)
     flags, witness = {}, []
     if st["t"] == "rigid":
-        exp = s.spheres.rotated(s.rotation).translated(s.translation)
+        # expected member centres from this file's own rotation matrices (not from the library's rotated/translated)
+        cen = np.array([m.center for m in s.spheres.scatterers], dtype=float)
+        rot = [float(v) for v in s.rotation]
+        com = cen.mean(0)
+        want = com + ((_Rz(rot[2]) @ _Ry(rot[1]) @ _Rz(rot[0])) @ (cen - com).T).T + np.asarray(s.translation, dtype=float)
         got = np.array([m.center for m in b.scatterers], dtype=float)
-        want = np.array([m.center for m in exp.scatterers], dtype=float)
-        flags["rigid_equivalent_collection"] = bool(np.allclose(got, want, rtol=0, atol=1e-13) and [m.r for m in b.scatterers] == [m.r for m in exp.scatterers])
+        flags["rigid_equivalent_collection"] = bool(np.allclose(got, want, rtol=0, atol=1e-12 * (1 + np.abs(want).max())) and
+                                                    [m.r for m in b.scatterers] == [m.r for m in s.spheres.scatterers])
     else:
         flags["equals_original"] = bool(b == s and type(b) is type(s))
         for path, _ in _sites(st):
